@@ -166,15 +166,18 @@ class extract_visitor(NodeVisitor):
 
     def visit_While(self, node):
         # type: (ast.While) -> None
-        self.visit(node.test)
         cur = self.flow
 
-        body_start = self.make_flow('while', [cur])
+        # the test is evaluated before every iteration: it sees the body's bindings too
+        test_start = self.make_flow('while-test', [cur])
+        test = self.visit_in_flow(node.test, test_start)
+
+        body_start = self.make_flow('while', [test])
         body = self.visit_in_flow(node.body, body_start)
-        body_start.loop(body)
+        test_start.loop(body)
 
         orelse = self.visit_in_flow(node.orelse,
-                                    self.make_flow('while-else', [cur, body]))
+                                    self.make_flow('while-else', [test]))
 
         self.flow = self.make_flow('join', [orelse])
         self.flow.scope.flow = self.flow
